@@ -1,5 +1,7 @@
 //! Line intersection parameters.
 
+use az::SaturatingAs;
+
 use crate::{
     geometry::{Point, PointExt},
     primitives::{
@@ -70,7 +72,10 @@ impl<'a> IntersectionParams<'a> {
     /// Check whether two almost-colinear lines are intersecting in the wrong place due to numerical
     /// inaccuracies.
     pub fn nearly_colinear_has_error(&self) -> bool {
-        self.denominator.pow(2) < self.line1.delta().dot_product(self.line2.delta()).abs()
+        // 64 bit integers are used, because the squared denominator doesn't fit into 32 bits for
+        // lines longer than about 150 pixels.
+        i64::from(self.denominator).pow(2)
+            < i64::from(self.line1.delta().dot_product(self.line2.delta())).abs()
     }
 
     /// Compute the intersection point.
@@ -99,23 +104,37 @@ impl<'a> IntersectionParams<'a> {
 
         // Round to the nearest integer, with ties rounded towards positive infinity. Rounding
         // ties away from zero would make the result depend on the absolute position of the lines.
-        let round_div = |numerator: i32| {
+        //
+        // The numerators are the product of three coordinates and are calculated with 64 bit
+        // integers to prevent overflows.
+        let round_div = |numerator: i64| {
+            let denominator = i64::from(denominator);
+
             let (numerator, denominator) = if denominator < 0 {
                 (-numerator, -denominator)
             } else {
                 (numerator, denominator)
             };
 
-            (numerator + denominator / 2).div_euclid(denominator)
+            (numerator + denominator / 2)
+                .div_euclid(denominator)
+                .saturating_as::<i32>()
         };
 
-        let origin_distances = Point::new(line1.origin_distance, line2.origin_distance);
+        let determinant =
+            |a: (i32, i32), b: (i32, i32)| i64::from(a.0) * i64::from(b.1) - i64::from(a.1) * i64::from(b.0);
 
-        let x_numerator =
-            origin_distances.determinant(Point::new(line1.normal_vector.y, line2.normal_vector.y));
+        let origin_distances = (line1.origin_distance, line2.origin_distance);
 
-        let y_numerator =
-            Point::new(line1.normal_vector.x, line2.normal_vector.x).determinant(origin_distances);
+        let x_numerator = determinant(
+            origin_distances,
+            (line1.normal_vector.y, line2.normal_vector.y),
+        );
+
+        let y_numerator = determinant(
+            (line1.normal_vector.x, line2.normal_vector.x),
+            origin_distances,
+        );
 
         Intersection::Point {
             point: Point::new(round_div(x_numerator), round_div(y_numerator)),
